@@ -768,70 +768,132 @@ def _promote(ctx) -> None:
     ctx.ob("b.promote", prog.func("vector.Vector._can_promote"), "table", can == PROMOTABLE,
            f"_can_promote accepts {sorted(can)}", prog.func("vector.Vector._can_promote").node,
            message=f"_can_promote accepts {sorted(can)}, the supported promotions are {sorted(PROMOTABLE)}")
-    # branches of _promote
+    # branches of _promote: decided per (current kind, target kind) situation on the symx event log
+    from ..symx import Interp as SInterp
+    from ..symx import NONE as SNONE
+    from ..symx import beval, show, simplify, single_element, substitute, subterms
+    it = SInterp(prog, f)
+    S = ("param", f.params[0])
+    CK = ("attr", ("attr", S, "_dtype"), "kind")
+    # the target-kind term: what CK is compared with in the identity test
+    TK = None
+    for e in it.events:
+        for c, pol in e.conds:
+            for t in subterms(c):
+                if t[0] == "cmp" and t[1] == "Is" and CK in (t[2], t[3]):
+                    o = t[3] if t[2] == CK else t[2]
+                    if o[0] != "name" and any(x == ("param", f.params[1]) for x in subterms(o)):
+                        TK = o
+    if TK is None:
+        raise AnalysisError("_promote: the test `self._dtype.kind is <target kind>` was not found")
+    cmps = set()
+    for e in it.events:
+        for c, pol in e.conds:
+            for t in subterms(c):
+                if t[0] == "cmp" and t[1] in ("Is", "Eq", "In"):
+                    cmps.add(t)
+
+    def atoms_for(a: str, b: str) -> dict:
+        val = {CK: a, TK: b}
+        out = {}
+        for t in cmps:
+            l, r = t[2], t[3]
+            if t[1] in ("Is", "Eq"):
+                lv = val.get(l, l[1] if l[0] == "name" else None)
+                rv = val.get(r, r[1] if r[0] == "name" else None)
+                if lv is not None and rv is not None:
+                    out[t] = lv == rv
+            elif t[1] == "In" and l in val and r[0] == "tuple" and all(x[0] == "name" for x in r[1]):
+                out[t] = val[l] in [x[1] for x in r[1]]
+        return out
+    conv_of = {
+        "float": lambda x: ("call", ("name", "float"), (x,), ()),
+        "complex": lambda x: ("call", ("name", "complex"), (x,), ()),
+        "datetime": lambda x: ("call", ("attr", ("name", "datetime"), "combine"),
+                               (x, ("call", ("attr", ("attr", ("name", "datetime"), "min"), "time"), (), ())), ()),
+    }
     pairs = set()
     problems = []
-    same = [s for s in f.body if isinstance(s, ast.If) and isinstance(s.test, ast.Compare) and len(s.test.ops) == 1
-            and isinstance(s.test.ops[0], ast.Is) and short(s.test.left) == "self._dtype.kind"
-            and isinstance(s.test.comparators[0], ast.Name) and s.body and isinstance(s.body[0], ast.Return)]
-    if not same:
-        raise AnalysisError("_promote: early return `if self._dtype.kind is <target kind>: return` not found")
-    tk = same[0].test.comparators[0].id
-    conv_of = {"float": "float(_0)", "complex": "complex(_0)", "datetime": "datetime.combine(_0, datetime.min.time())"}
+    late_raise = False
+    und = ("attr", S, "_underlying")
+    for a in kinds:
+        for b in kinds:
+            atoms = atoms_for(a, b)
 
-    def visit(st: ast.If):
-        t = st.test
-        if isinstance(t, ast.BoolOp) and isinstance(t.op, ast.And) and len(t.values) == 2:
-            a, b = t.values
-            to = frm = None
-            for x in (a, b):
-                if isinstance(x, ast.Compare) and len(x.ops) == 1 and short(x.left) == tk and isinstance(x.ops[0], ast.Is):
-                    to = short(x.comparators[0])
-                if isinstance(x, ast.Compare) and len(x.ops) == 1 and short(x.left) == "self._dtype.kind":
-                    if isinstance(x.ops[0], ast.Is):
-                        frm = [short(x.comparators[0])]
-                    elif isinstance(x.ops[0], ast.In) and isinstance(x.comparators[0], ast.Tuple):
-                        frm = [short(e) for e in x.comparators[0].elts]
-            if to and frm:
-                for k in frm:
-                    pairs.add((k, to))
-                # the branch body
-                stores_dt = [s for s in st.body if isinstance(s, ast.Assign) and short(s.targets[0]) == "self._dtype"]
-                if len(stores_dt) != 1 or short(stores_dt[0].value) != f"DataType({to}, nullable=self._dtype.nullable)":
-                    problems.append(f"branch to {to}: dtype becomes `{short(stores_dt[0].value) if stores_dt else 'nothing'}`, expected "
-                                    f"DataType({to}, nullable=self._dtype.nullable)")
-                tup = [s for s in st.body if isinstance(s, ast.Assign) and isinstance(s.value, ast.Call) and short(s.value.func) == "tuple"]
-                if len(tup) != 1:
-                    problems.append(f"branch to {to}: element conversion not recognised")
-                else:
-                    g = tup[0].value.args[0]
-                    if not (isinstance(g, ast.GeneratorExp) and len(g.generators) == 1 and not g.generators[0].ifs
-                            and attr_chain(g.generators[0].iter) == ["self", "_underlying"]):
-                        problems.append(f"branch to {to}: the new tuple is not built from ALL elements of self._underlying "
-                                        f"(`{short(g, 60)}`): the vector would change length")
-                    elif cshort(g) != f"({conv_of.get(to, '?')} if _0 is not None else None for _0 in self._underlying)":
-                        problems.append(f"branch to {to}: elements are converted by `{short(g.elt, 60)}`, expected `{conv_of.get(to)} "
-                                        f"if x is not None else None`")
-        for o in st.orelse:
-            if isinstance(o, ast.If):
-                visit(o)
-            elif isinstance(o, ast.Raise):
-                pass
-    chain = [s for s in f.body if isinstance(s, ast.If) and s is not same[0] and f"{tk} is" in short(s.test) and "self._dtype.kind" in short(s.test)]
-    if not chain:
-        raise AnalysisError("_promote: promotion branch chain not found")
-    visit(chain[0])
+            def active(e):
+                for c, pol in e.conds:
+                    v = beval(simplify(c, atoms), atoms)
+                    if v is None:
+                        if any(x in (CK, TK) for x in subterms(c)):
+                            raise AnalysisError(f"_promote: condition `{show(c, it)[:60]}` not decided for ({a} -> {b})")
+                        continue
+                    if bool(v) != pol:
+                        return False
+                return True
+            evs = [e for e in it.events if e.kind in ("store", "raise") and active(e)]
+            stores = [e for e in evs if e.kind == "store"]
+            raises = [e for e in evs if e.kind == "raise"]
+            raises = [r for r in raises if not any(x == ("name", "isinstance") for c, _ in r.conds[-1:] for x in subterms(c))]
+            if a == b:
+                if stores or raises:
+                    problems.append(f"promoting {a} to itself is not a no-op")
+                continue
+            if raises and stores and min(x.seq for x in stores) < max(x.seq for x in raises):
+                late_raise = True
+            if not stores:
+                if (a, b) in PROMOTABLE and raises:
+                    pass
+                continue
+            pairs.add((a, b))
+            if (a, b) not in PROMOTABLE:
+                continue
+            sub = {TK: ("name", b), CK: ("name", a)}
+            dts = [e for e in stores if e.term == ("attr", S, "_dtype")]
+            want_dt = ("call", ("name", "DataType"), (("name", b),), (("nullable", ("attr", ("attr", S, "_dtype"), "nullable")),))
+            if len(dts) != 1 or simplify(substitute(dts[0].value, sub), atoms) != substitute(want_dt, {CK: ("name", a)}) \
+                    and simplify(dts[0].value, atoms) not in (want_dt, substitute(want_dt, {("name", b): TK})):
+                got = show(dts[0].value, it)[:60] if dts else "nothing"
+                problems.append(f"branch {a} -> {b}: dtype becomes `{got}`, expected DataType({b}, nullable=self._dtype.nullable)")
+            tups = [e for e in stores if e.term == und]
+            okc = False
+            why = "element conversion not recognised"
+            if len(tups) == 1 and tups[0].value[0] == "call" and tups[0].value[1] == ("name", "tuple") and len(tups[0].value[2]) == 1:
+                se = single_element(it, tups[0].value[2][0])
+                if se is not None and len(se[0]) == 1:
+                    (L,), extra, v, ev = se
+                    if it.loops[L].iter != und or extra:
+                        why = ("the new tuple is not built from ALL elements of self._underlying "
+                               f"(`{show(it.loops[L].iter, it)[:40]}` filtered by {len(extra)} condition(s)): the vector would change length")
+                    else:
+                        x = ("elem", und, L)
+                        v = simplify(v, atoms)
+                        # resolve a converter selected into a local: call of a closure term
+                        for t in list(subterms(v)):
+                            if t[0] == "call" and t[1][0] == "lam":
+                                r = it.call_value(t[1], t[2])
+                                if r is not None:
+                                    v = substitute(v, {t: r})
+                        want = ("ifexp", ("cmp", "Is", x, SNONE), SNONE, conv_of[b](x))
+                        if v == want:
+                            okc = True
+                        else:
+                            why = f"elements are converted by `{show(v, it)[:70]}`, expected `{b}(x) if x is not None else None`"
+            if not okc:
+                problems.append(f"branch {a} -> {b}: {why}")
     if pairs != PROMOTABLE:
         problems.append(f"_promote supports {sorted(pairs)} but _can_promote/spec say {sorted(PROMOTABLE)}")
-    ctx.ob("b.promote", f, "branches", not problems, f"_promote branches: {sorted(pairs)}", chain[0], message="; ".join(problems))
-    # raise for unsupported: the chain ends in raise SerifTypeError, and all raises precede any store
+    seen = set()
+    problems = [p for p in problems if not (p in seen or seen.add(p))]
+    ctx.ob("b.promote", f, "branches", not problems, f"_promote converts exactly {sorted(pairs)}", f.node, message="; ".join(problems))
+    # raise for unsupported: every raise precedes any store
     cfg = cfg_of(f)
     raises = [n for n in cfg.stmt_nodes() if isinstance(n.ast, ast.Raise)]
     stores = [n for n in cfg.stmt_nodes() if isinstance(n.ast, ast.Assign) and short(n.ast.targets[0]).startswith("self.")]
-    late = [r for r in raises for s in stores if cfg.can_reach(s, r)]
-    ctx.ob("b.promote", f, "raise-before-store", not late and bool(raises), "every raise of _promote precedes its first store",
+    late = [r for r in raises for s_ in stores if cfg.can_reach(s_, r)]
+    ctx.ob("b.promote", f, "raise-before-store", not late and not late_raise and bool(raises), "every raise of _promote precedes its first store",
            raises[0].ast if raises else f.node, message="_promote can raise after it has already replaced storage/dtype")
-    ctx.ob("b.promote", f, "identity", True, "same kind: no-op", same[0])
+    ctx.ob("b.promote", f, "identity", not any("no-op" in p for p in problems), "same kind: no-op", f.node,
+           message="promoting a vector to its own kind is not a no-op")
 
 
 # =========================================================================================== validate_scalar
